@@ -584,7 +584,14 @@ def standard_check(ctx, std):
                 v = v3.get(c.name)
                 if v is not None and not (match_known(findings, v[1], c, v[0]) and first_diff(i3[c.name][:v[0] + 1], m3[c.name][:v[0] + 1]) is None):
                     small = shrink_case(ctx, std, c, v[1], model_bin)
-                    res.violation(small.text() + "# property %s violated on the implementation: monitor clause '%s'\n" % (pid, v[1]), "replay-search.trace")
+                    i4, m4, v4, f4, _ = _eval_cases(ctx, std, [small], model_bin, res)
+                    sv = v4.get(small.name)
+                    if sv is not None and first_diff(i4[small.name][:sv[0] + 1], m4[small.name][:sv[0] + 1]) is None \
+                            and match_known(findings, sv[1], small, sv[0]):
+                        continue  # the minimal trace is a listed finding reproduced by the model: not the new failure
+                    res.violation(small.text() + "# property %s violated on the implementation: monitor clause '%s'\n" % (pid, v[1])
+                                  + "# implementation outputs: %s\n# model outputs:          %s\n" % (" | ".join(i4[small.name]), " | ".join(m4[small.name])),
+                                  "replay-search.trace")
                     break
         if not res.violations:
             res.violation("\n\n".join(broken) + "\n# no input on which the property fails was found (%d generated + %d search cases)\n"
